@@ -33,6 +33,12 @@ type uaf struct {
 	Reader string
 	Owner  string
 	Kind   string // self | direct | chain | concat
+	// where the owner's range was freed, its size, and the first instruction
+	// between the gc and the read that allocates a value of exactly that size
+	// (newIDs pops the free list of the size: that value gets the range)
+	FreedAt   int
+	OwnerBits int
+	ReusedBy  string
 }
 
 type ssaInfo struct {
@@ -84,6 +90,7 @@ func analyse(prog *ssa.Program) *ssaInfo {
 	si := &ssaInfo{keys: map[string]int{}, Kinds: map[string]int{}, Owners: map[int]bool{}, OpCount: map[string]int{}}
 	vals := map[int][]origin{}
 	freed := map[int]bool{}
+	freedAt := map[int]int{}
 	constO := origin{owner: -1}
 	get := func(v *ssa.Value) []origin {
 		if v.Const {
@@ -166,6 +173,7 @@ func analyse(prog *ssa.Program) *ssaInfo {
 		if in.Op == ssa.GC {
 			si.NumGC++
 			freed[si.key(in.GC)] = true
+			freedAt[si.key(in.GC)] = idx
 			continue
 		}
 		if in.Op == ssa.Circ {
@@ -208,7 +216,8 @@ func analyse(prog *ssa.Program) *ssaInfo {
 					si.Kinds[kind]++
 					si.Owners[b.owner] = true
 					if len(si.UAFs) < 8 {
-						si.UAFs = append(si.UAFs, uaf{Step: idx, Reader: v.String(), Owner: si.names[b.owner], Kind: kind})
+						si.UAFs = append(si.UAFs, uaf{Step: idx, Reader: v.String(), Owner: si.names[b.owner], Kind: kind,
+							FreedAt: freedAt[b.owner], OwnerBits: len(vals[b.owner])})
 					}
 				}
 			}
@@ -287,6 +296,24 @@ func analyse(prog *ssa.Program) *ssaInfo {
 			}
 		}
 		vals[ko] = out
+	}
+	// who gets the freed range: the first value of the same size that is
+	// allocated (first occurrence as an output) between the gc and the read
+	for u := range si.UAFs {
+		f := &si.UAFs[u]
+		f.ReusedBy = "no value of this size is allocated between the gc and the read"
+		for idx := f.FreedAt + 1; idx < f.Step && idx < len(prog.Steps); idx++ {
+			in := &prog.Steps[idx].Instr
+			if in.Op == ssa.GC || in.Out == nil || in.Out.Const || int(in.Out.Type.Bits) != f.OwnerBits {
+				continue
+			}
+			how := "garbled: its wires are written"
+			if isRewire(in.Op) {
+				how = "rewired: holds the range without writing it"
+			}
+			f.ReusedBy = fmt.Sprintf("step %d `%s` (%s)", idx, strings.Join(strings.Fields(in.String()), " "), how)
+			break
+		}
 	}
 	return si
 }
